@@ -72,6 +72,11 @@ class ParamsGenerator:
 
     if model_qsvs is None:
       model_qsvs = {}
+    else:
+      # The materialization functions update the statistics in place (ops whose
+      # output range is constrained); keep the caller's calibration result
+      # intact so that it can be reused with another recipe.
+      model_qsvs = copy.deepcopy(model_qsvs)
 
     op_codes = self.flatbuffer_model.operatorCodes
     for subgraph in self.flatbuffer_model.subgraphs:
